@@ -6,6 +6,17 @@ use jsonptr::Token;
 use std::str::FromStr;
 
 fn show(r: &Result<Index, ParseIndexError>, s: &str, out: &mut Out) -> String {
+    if let Err(e) = r {
+        // Display / Debug of every rejection, and its source chain, never panic
+        if no_panic(|| format!("{e} {e:?}")).is_none() {
+            out.fail("C16", format!("formatting the ParseIndexError for {s:?} panicked"));
+        }
+        #[cfg(feature = "full")]
+        {
+            let has = std::error::Error::source(e).is_some();
+            out.check(has == !matches!(e, ParseIndexError::LeadingZeros), "C16", || format!("ParseIndexError::source() presence wrong for {s:?}"));
+        }
+    }
     match r {
         Ok(Index::Next) => format!("ok next {}", hex(Index::Next.to_string().as_bytes())),
         Ok(Index::Num(n)) => format!("ok num {n} {}", hex(Index::Num(*n).to_string().as_bytes())),
